@@ -55,6 +55,18 @@ pub fn si_of(value: &BigRational, unit: &UnitParts, interval: bool) -> Result<Si
     Ok(Si { value: v, dim })
 }
 
+/// The verdict for a result whose unit the harness cannot turn into SI: a unit that is not in the
+/// harness's table at all (a build that knows more units than the documented ones) cannot be
+/// judged; anything else is reported.
+pub fn table_verdict(e: impl Into<String>) -> crate::fw::Verdict {
+    let e = e.into();
+    if e.contains("is not in the documented table") {
+        crate::fw::Verdict::DontCare("the result carries a unit that is not in the harness's table (C17 pins the documented ids)")
+    } else {
+        crate::fw::fail("unit-table", e)
+    }
+}
+
 pub fn si_of_res(r: &Res) -> Result<Si, String> {
     match r {
         Res::Ok { value, unit, .. } => si_of(value, unit, false),
@@ -86,7 +98,8 @@ pub fn readings_spans(word: &str) -> Vec<SpanReading> {
 /// the tool accepts, so that a build which learns them is not reported.
 pub const PREFIXES_2022: [(&str, &str, i32); 4] = [("R", "ronna", 27), ("Q", "quetta", 30), ("r", "ronto", -27), ("q", "quecto", -30)];
 
-/// Readings of `word` that are valid when the 2022 prefixes are admitted as well.
+/// Readings of `word` that are valid when the 2022 prefixes and English plurals of spelled-out
+/// names are admitted as well.
 pub fn readings_2022(word: &str) -> Vec<Reading> {
     readings_spans_with(word, &PREFIXES_2022).into_iter().map(|r| r.into_iter().map(|(_, _, p, u)| (p, u)).collect()).collect()
 }
@@ -118,6 +131,13 @@ fn readings_spans_with(word: &str, extra: &'static [(&'static str, &'static str,
                     if let Some(tail) = strip(after, name) {
                         acc.push((ptext.to_string(), name.to_string(), p, u));
                         rec(tail, acc, out, extra);
+                        // with the extended vocabulary: the English plural of a spelled-out name
+                        // (`kilograms`, `metres`, `joules`) is that unit, not the unit times a second
+                        if !extra.is_empty() && name.len() >= 4 && name.chars().all(|c| c.is_ascii_lowercase()) && !name.ends_with('s') {
+                            if let Some(t2) = tail.strip_prefix('s') {
+                                rec(t2, acc, out, extra);
+                            }
+                        }
                         acc.pop();
                     }
                 }
